@@ -6,10 +6,10 @@ from checks import dispatch_common as D
 from vplib import coqtools, harness
 
 META = {
-    "technique": "Coq proof (component level: every window type incl. partitioned forms, distinct, limit: checkpoint->restore inserted at any positions leaves the emitted windows unchanged outside two decidable known-finding classes; refuted witnesses inside them) + model/impl differential on the real window objects + the property's own differential on the real Engine (uninterrupted vs checkpoint -> serde_json -> restore into a fresh engine at every cut point)",
+    "technique": "Coq proof (watermark tracker and the engine's late-data gate: checkpoint -> fresh tracker/engine -> restore at any points of any history is invisible, C19_watermark_*; component level: every window type incl. partitioned forms, distinct, limit: checkpoint->restore inserted at any positions leaves the emitted windows unchanged outside two decidable known-finding classes; refuted witnesses inside them) + model/impl differential on the real window objects + the property's own differential on the real Engine (uninterrupted vs checkpoint -> serde_json -> restore into a fresh engine at every cut point)",
     "design_ref": "DESIGN.md §7 C19",
-    "level_text": "Theorems C19_* in coq/theories/Ckpt/Props.v: for every window type (tumbling, count, session, sliding, sliding count and the partitioned form of each), every event sequence and checkpoint->restore into a new window at any set of cut points, the window emits what it emits without the checkpoints, provided no timestamp has a sub-millisecond part and a sliding count window slides by at most 1 (C19_windows); both exclusions are refuted by concrete witnesses replayed against the real windows on every run (C19_slide_counter_refuted, C19_subms_refuted); the distinct LRU snapshot and the limit counter restore the same state (C19_distinct, C19_limit). Engine level (whole programs: sequences, joins, derived streams, variables): tested by the property's own differential at every cut point, not proved.",
-    "level_note": "Proved at component level on the window state machines of Window/Model.v plus the checkpoint/restore functions of Ckpt/Model.v; the serde_json round trip is the identity in the model (C20's subject) and an event's field map (whose order a restored event loses) is not modelled. SASE runs, join buffers, watermark tracker and engine variables have no Coq model here: they are covered only by the engine-level differential. Known findings are classified by predicates on the input (program has a sliding count window with slide > 1; some event timestamp is not a whole millisecond).",
+    "level_text": "Theorems C19_watermark_tracker / _restore_exact / _engine in coq/theories/Watermark/PropsCkpt.v (every program with .watermark/.allowed_lateness, every history of events, external watermark advances and registrations, restore points anywhere: same final tracker state and same delivered/dropped decision per event), tied by running the same op lists with restore points on PerSourceWatermarkTracker and on Engine::create_checkpoint/restore_checkpoint; theorems C19_* in coq/theories/Ckpt/Props.v: for every window type (tumbling, count, session, sliding, sliding count and the partitioned form of each), every event sequence and checkpoint->restore into a new window at any set of cut points, the window emits what it emits without the checkpoints, provided no timestamp has a sub-millisecond part and a sliding count window slides by at most 1 (C19_windows); both exclusions are refuted by concrete witnesses replayed against the real windows on every run (C19_slide_counter_refuted, C19_subms_refuted); the distinct LRU snapshot and the limit counter restore the same state (C19_distinct, C19_limit). Engine level (whole programs: sequences, joins, derived streams, variables): tested by the property's own differential at every cut point, not proved.",
+    "level_note": "Proved at component level on the window state machines of Window/Model.v plus the checkpoint/restore functions of Ckpt/Model.v; the serde_json round trip is the identity in the model (C20's subject) and an event's field map (whose order a restored event loses) is not modelled. SASE runs, join buffers and engine variables have no Coq model here (the watermark tracker has: Watermark/Ckpt.v, whole-millisecond instants): they are covered only by the engine-level differential. Known findings are classified by predicates on the input (program has a sliding count window with slide > 1; some event timestamp is not a whole millisecond).",
 }
 CONTRA = "C19_windows (coq/theories/Ckpt/Props.v)"
 MS = 1_000_000
@@ -279,6 +279,167 @@ ENGINE_CORPUS = [
 ]
 
 
+# ------------------------------------------------- watermark tracker (Watermark/Ckpt.v)
+WM_IMPORTS = ("From Coq Require Import String.\nFrom VP Require Import Base.Tactics Base.Render Watermark.Model Watermark.Run Watermark.Ckpt.\n"
+              "Open Scope string_scope.\nOpen Scope Z_scope.\n")
+WM_CONTRA = "C19_watermark_tracker / C19_watermark_engine (coq/theories/Watermark/PropsCkpt.v)"
+
+
+def wm_with_cuts(rng, c):
+    """a C24 case (tracker or engine) with checkpoint/restore points inserted; tracker cases get initial registrations"""
+    ops = []
+    for o in c["ops"]:
+        ops.append(o)
+        if rng.chance(1, 4):
+            ops.append(["ckr", 0, 0])
+    if not any(o[0] == "ckr" for o in ops):
+        ops.insert(rng.range(1, len(ops)), ["ckr", 0, 0])
+    c = dict(c, ops=ops)
+    if c["api"] == "tracker":
+        c["regs"] = [[n, rng.choice([0, 1, 2, 3])] for n in range(3) if rng.chance(1, 2)]
+    return c
+
+
+def wm_strip(c):
+    return dict(c, ops=[o for o in c["ops"] if o[0] != "ckr"])
+
+
+def wm_request(c):
+    import checks.C24 as W
+    if c["api"] == "tracker":
+        return {"kind": "tracker", "regs": [[W.name(n), o] for n, o in c.get("regs", [])],
+                "ops": [["ckr", "", 0] if o[0] == "ckr" else [o[0], W.name(o[1]), o[2]] for o in c["ops"]]}
+    ops = []
+    for k, o in enumerate(c["ops"]):
+        if o[0] == "ev":
+            ops.append(["ev", W.name(o[1]), o[2], o[3] if len(o) > 3 else k])
+        elif o[0] == "ckr":
+            ops.append(["ckr"])
+        else:
+            ops.append([o[0], W.name(o[1]), o[2]])
+    return {"kind": "engine", "program": W.vpl_program(c), "ops": ops}
+
+
+def wm_gallina(c):
+    if c["api"] == "tracker":
+        m = {"reg": "Reg", "obs": "Obs", "adv": "Adv"}
+        return "ctracker_case [%s] [%s]" % ("; ".join("(%d, %d)" % (n, o) for n, o in c.get("regs", [])),
+                                            "; ".join("CWCkr" if o[0] == "ckr" else "CW (%s %d (%d))" % (m[o[0]], o[1], o[2]) for o in c["ops"]))
+    import checks.C24 as W
+    m = {"ev": "Ev", "extwm": "ExtWm", "reg": "EReg"}
+    streams = "; ".join("mkCfg %d %s %s" % (x["src"], W.g_oz(x["wm"]), W.g_oz(x["late"])) for x in c["streams"])
+    return "cengine_case [%s] [%s]" % (streams, "; ".join("CECkr" if o[0] == "ckr" else "CE (%s %d (%d))" % (m[o[0]], o[1], o[2]) for o in c["ops"]))
+
+
+def wm_number_events(c):
+    """event ids = position among the non-checkpoint ops, so that the runs with and without checkpoints carry the same ids"""
+    if c["api"] != "engine":
+        return c
+    ops = []
+    k = 0
+    for o in c["ops"]:
+        if o[0] == "ev":
+            ops.append([o[0], o[1], o[2], k])
+        else:
+            ops.append(o)
+        if o[0] != "ckr":
+            k += 1
+    return dict(c, ops=ops)
+
+
+def wm_impl_str(c, ans):
+    import checks.C24 as W
+    return W.impl_str(c, ans)
+
+
+def wm_judge(c, a, b):
+    """a: answer with checkpoints, b: without.  The lines of the non-checkpoint ops must agree; a checkpoint's own
+    line must show the state of the line before it."""
+    if "panic" in a or "panic" in b:
+        return ["implementation panicked: %s" % (a.get("panic") or b.get("panic"))[:200]]
+    if "error" in a or "error" in b:
+        return ["error: %s" % (a.get("error") or b.get("error"))[:200]]
+    fails = []
+    j = 0
+    prev = None
+    for k, (o, st) in enumerate(zip(c["ops"], a["steps"])):
+        if o[0] == "ckr":
+            if any(x and x[0] == "error" for x in st.get("out", [])):
+                fails.append("op %d: restore failed: %s" % (k, st["out"]))
+            if prev is not None and (st["eff"], st["src"]) != (prev["eff"], prev["src"]):
+                fails.append("op %d: tracker state after checkpoint->restore is eff=%s src=%s, before it eff=%s src=%s" % (k, st["eff"], st["src"], prev["eff"], prev["src"]))
+        else:
+            ref = b["steps"][j]
+            j += 1
+            if (st["eff"], st["src"], st.get("out")) != (ref["eff"], ref["src"], ref.get("out")):
+                fails.append("op %d %s: with checkpoints eff=%s src=%s out=%s, without eff=%s src=%s out=%s" % (
+                    k, o, st["eff"], st["src"], st.get("out"), ref["eff"], ref["src"], ref.get("out")))
+        prev = st
+    return fails[:3]
+
+
+def wm_stage(run, rng):
+    import checks.C24 as W
+    okm, lgm = coqtools.make(["theories/Watermark/Ckpt.vo"])
+    if not okm:
+        run.tie_broken("model build Watermark/Ckpt.vo", lgm[-2000:])
+        return
+    okb, bindir, blog = harness.build("vp-watermark")
+    if not okb:
+        run.tie_broken("harness build vp-watermark", blog[-3000:])
+        return
+    binpath = os.path.join(bindir, "vp-watermark")
+    n = 160 if run.tier == "quick" else 4000
+    cases = [
+        # restore point between the event that sets the watermark and a late event on each side of the lateness boundary
+        {"api": "engine", "streams": [{"src": 0, "wm": 2, "late": 3}, {"src": 1, "wm": None, "late": None}],
+         "ops": [["ev", 0, 10], ["ev", 1, 20], ["ckr", 0, 0], ["ev", 0, 5], ["ev", 0, 4], ["reg", 7, 1], ["ckr", 0, 0], ["ev", 7, 30], ["ev", 0, 9]]},
+        # a source registered after load, and an auto-registered one, must survive the restore with their bounds
+        {"api": "tracker", "regs": [[0, 2]], "ops": [["obs", 0, 10], ["reg", 1, 3], ["obs", 1, 9], ["obs", 2, 4], ["ckr", 0, 0], ["obs", 1, 12], ["adv", 2, 7], ["ckr", 0, 0], ["obs", 0, 11]]},
+    ]
+    for i in range(n):
+        base = W.gen_tracker(rng, 12, rereg=(i % 8 == 0)) if i % 2 else W.gen_engine(rng, 14)
+        cases.append(wm_with_cuts(rng, base))
+    cases = [wm_number_events(c) for c in cases]
+    plain = [wm_strip(c) for c in cases]
+    answers = harness.run_jsonl(binpath, [wm_request(c) for c in cases] + [wm_request(c) for c in plain])
+    try:
+        model = coqtools.coq_eval("C19wm", WM_IMPORTS, [wm_gallina(c) for c in cases], shard=max(60, len(cases) // 6 + 1))
+    except RuntimeError as e:
+        run.tie_broken("model evaluation (coqc cases, watermark)", str(e))
+        model = [None] * len(cases)
+    nd = nf = 0
+    for k, c in enumerate(cases):
+        a, b = answers[k], answers[len(cases) + k]
+        run.count("watermark api=" + c["api"])
+        run.count("watermark cuts=%d" % min(4, sum(1 for o in c["ops"] if o[0] == "ckr")))
+        steps = a.get("steps", [])
+        nontrivial = None
+        if any(isinstance(st.get("src"), list) and any(x[1] is not None for x in st["src"]) for o, st in zip(c["ops"], steps) if o[0] == "ckr"):
+            nontrivial = "wm" + json.dumps(c, sort_keys=True)
+        if c["api"] == "engine" and "steps" in b:
+            run.count("watermark engine_dropped", sum(1 for o, st in zip(plain[k]["ops"], b["steps"]) if o[0] == "ev" and not st["out"]
+                                                       and any(x["src"] == o[1] for x in c["streams"])))
+        run.case(nontrivial)
+        fails = wm_judge(c, a, b)
+        if fails:
+            nf += 1
+            run.count("oracle_fail(watermark)")
+            if nf <= 3:
+                run.violation("watermark tracker: " + "; ".join(fails)[:700],
+                              {"watermark": c, "program": W.vpl_program(c) if c["api"] == "engine" else None,
+                               "with_cp": wm_impl_str(c, a), "without": wm_impl_str(plain[k], b), "contradicts": WM_CONTRA})
+        si = wm_impl_str(c, a)
+        if model[k] is not None and si != model[k]:
+            nd += 1
+            if nd <= 3:
+                run.tie_broken("correspondence Watermark/Ckpt.v vs watermark.rs checkpoint/restore + Engine restore_checkpoint on %s" % json.dumps(c)[:800],
+                               "impl  %s\nmodel %s" % (si, model[k]))
+    run.extra["watermark_disagreements"] = nd
+    run.extra["watermark_oracle_failures"] = nf
+    return nf
+
+
 def check(run):
     run.rule = ("component level: random add/checkpoint-restore sequences on the 8 public window types (2..10 events, cut points with prob 1/3 after each, "
                 "1/5 of the cases with sub-ms timestamps), model vs real windows; engine level: programs of 1..3 streams (where / partition_by / count, sliding count, "
@@ -291,8 +452,8 @@ def check(run):
                     "serde_json round trip of checkpoints modelled as the identity (property C20)",
                     "Rust harness harness/crates/ckpt, Python driver checks/C19.py (generators, classification predicates, canonicalisation of wall-clock timestamps)"]
     run.assumptions += ["wall-clock values are canonicalised away (timestamps of Event::new-created events, match_duration_ms); event field order is not compared",
-                        "no .within / watermark / timer / connector in the generated programs"]
-    coqtools.prove(run, ["theories/Ckpt/Props.vo", "theories/Ckpt/Run.vo"], "C19.v")
+                        "no .within / timer / connector in the generated programs; .watermark / .allowed_lateness only in the watermark stage (streams of where-less emit pipelines)"]
+    coqtools.prove(run, ["theories/Ckpt/Props.vo", "theories/Ckpt/Run.vo", "theories/Watermark/PropsCkpt.vo"], "C19.v")
     okb, bindir, blog = harness.build("vp-ckpt")
     if not okb:
         run.tie_broken("harness build vp-ckpt", blog[-3000:])
@@ -409,7 +570,8 @@ def check(run):
                 run.violation("; ".join(fails)[:700],
                               {"vpl": D.vpl_program(sp), "program": sp, "events": se, "failing_cuts": cuts, "fails": fails,
                                "contradicts": "property C19 (engine level); component theorem " + CONTRA}, classes=cl)
-    run.extra["oracle_failures"] = n_e_oracle + n_w_oracle
+    n_wm = wm_stage(run, rng) or 0
+    run.extra["oracle_failures"] = n_e_oracle + n_w_oracle + n_wm
 
 
 def replay(run, path):
@@ -418,7 +580,14 @@ def replay(run, path):
     binpath = os.path.join(bindir, "vp-ckpt")
     run.case(("replay",), {"replay": path})
     run.case(("replay2",))
-    if "window" in r:
+    if "watermark" in r:
+        c = r["watermark"]
+        ok, bindir, lg = harness.build("vp-watermark")
+        a, b = harness.run_jsonl(os.path.join(bindir, "vp-watermark"), [wm_request(c), wm_request(wm_strip(c))])
+        fails = wm_judge(c, a, b)
+        if fails:
+            run.violation("watermark tracker: " + "; ".join(fails)[:700], {"watermark": c})
+    elif "window" in r:
         c = r["window"]
         a, b = harness.run_jsonl(binpath, [c, strip_cp(c)])
         if adds_only(a) != adds_only(b):
